@@ -14,7 +14,7 @@
  * along with this program.  If not, see <https://www.gnu.org/licenses/>.
  */
 
-use std::{cmp, thread};
+use std::{cmp, fmt, thread};
 use std::fs::{self, canonicalize, create_dir_all, read_link, File, Metadata};
 use std::path::{Path, PathBuf};
 use std::sync::Arc;
@@ -32,16 +32,26 @@ use crate::errors::{Result, XcpError};
 use crate::feedback::{StatusUpdate, StatusUpdater};
 use crate::paths::{parse_ignore, ignore_filter};
 
+/// Where a [CopyHandle] reports errors that occur when it is dropped.
+struct DropReporter(Arc<dyn StatusUpdater>);
+
+impl fmt::Debug for DropReporter {
+    fn fmt(&self, f: &mut fmt::Formatter<'_>) -> fmt::Result {
+        f.write_str("DropReporter")
+    }
+}
+
 #[derive(Debug)]
 pub struct CopyHandle {
     pub infd: File,
     pub outfd: File,
     pub metadata: Metadata,
     pub config: Arc<Config>,
+    reporter: DropReporter,
 }
 
 impl CopyHandle {
-    pub fn new(from: &Path, to: &Path, config: &Arc<Config>) -> Result<CopyHandle> {
+    pub fn new(from: &Path, to: &Path, config: &Arc<Config>, updates: &Arc<dyn StatusUpdater>) -> Result<CopyHandle> {
         let infd = File::open(from)?;
         let metadata = infd.metadata()?;
 
@@ -59,6 +69,7 @@ impl CopyHandle {
             outfd,
             metadata,
             config: config.clone(),
+            reporter: DropReporter(updates.clone()),
         };
 
         Ok(handle)
@@ -150,6 +161,11 @@ impl Drop for CopyHandle {
         // FIXME: Should we check for panicking() here?
         if let Err(e) = self.finalise_copy() {
             error!("Error during finalising copy operation {:?} -> {:?}: {}", self.infd, self.outfd, e);
+            // Drop cannot return the error; report it so that the copy as a whole fails.
+            let update = StatusUpdate::Error(XcpError::CopyError(e.to_string()));
+            if self.reporter.0.send(update).is_err() {
+                error!("Failed to report the finalisation error for {:?}", self.outfd);
+            }
         }
     }
 }
